@@ -43,6 +43,25 @@ MismatchInv == (Convertible(a, b) /\ a.id # "Byte") =>
                     ApplyV([VW("Unit") EXCEPT !.from = a.id, !.to = b.id], [BaseVal("bad") EXCEPT !.prom = a.id]).call.kind = "error"
 
 First == CHOOSE u \in Units : u.id = "None"
+\* collectors (Distribution / Mean): an element type that promises a and writes b.  Every ordered pair
+\* of the 26 units, "None" included on either side: a # b is a validation error, never a number.
+Wrote(u, slot) == Metric(<<Ob("U", slot, 0, 0)>>, u.id, u.id, <<>>, {})
+CollectInv ==
+    LET d == CollectDist(a.id, <<Wrote(b, 1), Wrote(b, 2)>>)
+        m == CollectMean(a.id, <<Wrote(b, 1), Wrote(b, 2)>>)
+    IN  IF a = b THEN /\ d.kind = "metric" /\ d.unit = a.id /\ Len(d.obs) = 2 /\ PhysicalOK(d)
+                      /\ m.kind = "metric" /\ m.unit = a.id /\ m.obs[1].occ = 2 /\ PhysicalOK(m)
+        ELSE d.kind = "error" /\ m.kind = "error"
+EmitCollect == (c = First) =>
+    PrintT(<<"COLLECT", ToJson([prom |-> a.id, wrote |-> b.id,
+                                 dist |-> CollectDist(a.id, <<Wrote(b, 1), Wrote(b, 2)>>),
+                                 mean |-> CollectMean(a.id, <<Wrote(b, 1), Wrote(b, 2)>>),
+                                 \* a bare unitless number (u64) recorded into Mean<a>
+                                 mean_u64 |-> CollectMean(a.id, <<BaseVal("u64").call>>),
+                                 \* an element that makes no call / a string element
+                                 dist_empty_elem |-> CollectDist(a.id, <<NoCall, Wrote(a, 1)>>),
+                                 dist_string |-> CollectDist(a.id, <<StringCall>>)])>>)
+
 Emit == (c = First /\ Convertible(a, b)) =>
             PrintT(<<"REPLAY", ToJson([from |-> a.id, to |-> b.id, from_name |-> a.name, to_name |-> b.name,
                                         e2 |-> Ratio(a, b).p2, e10 |-> Ratio(a, b).p10,
